@@ -269,7 +269,7 @@ def group_arrays(tlist):
         return pidx, tidx
 
     _group(tlist, sql.Identifier, match,
-           valid_prev, valid_next, post, extend=True, recurse=False)
+           valid_prev, valid_next, post, extend=True)
 
 
 def group_operator(tlist):
